@@ -11,7 +11,8 @@ EXTENDS Selector, TLC, Json, IOUtils
 Rec == ndJsonDeserialize(IOEnv.TRACE)
 VARIABLES l, bad
 
-Lay(a) == [i \in 1..Len(a) |-> a[i]]
+\* the recorder reports data-centre sizes; nodes of a data centre are numbered 1..size
+Lay(a) == [i \in 1..Len(a) |-> 1..a[i]]
 NodeSet(a) == { <<a[i][1], a[i][2]>> : i \in 1..Len(a) }
 
 Call(e) ==
